@@ -1529,7 +1529,9 @@ def register(PROPS):
                   'C04': (['Magic'], 'rs_magic_hash_eq rs_magic_get_attacks_eq rs_rook_attacks_eq rs_bishop_attacks_eq rs_rook_magics_eq rs_bishop_magics_eq'.split()),
                   # module granularity matters: a module that fails to build fails all its theorems, so each property lists only
                   # the function groups it depends on (Make / Unmake / GenMake / GenUnmake / GenXor are separate files)
-                  'C02': (['Make', 'MoveBits', 'GenMake'], 'rs_make_eq rs_make_generated rs_is_valid_after_make rs_move_masks rs_move_shifts rs_move_decode_eq rs_move_encode_eq'.split()),
+                  'C01': (['GenerateCtor', 'GenerateScan', 'GenerateAttacks', 'GeneratePawns', 'GenerateCastle', 'GenerateTop', 'GenerateLegal', 'GenerateRules'],
+                          'rs_make_move_ctor_eq rs_generate_attacks_eq rs_sliding_moves_eq rs_single_moves_eq rs_pawn_attacks_eq rs_pawn_moves_eq rs_castle_moves_eq rs_generate_pseudo_legal_wf rs_generate_non_quiescent_wf rs_generate_legal_moves_eq rs_is_any_move_legal_eq rs_generate_legal_eq_rules rs_generate_pseudo_legal_eq_rules'.split()),
+                  'C02': (['Make', 'MoveBits', 'GenMake', 'GenerateCtor'], 'rs_make_eq rs_make_generated rs_is_valid_after_make rs_move_masks rs_move_shifts rs_move_decode_eq rs_move_encode_eq rs_make_move_ctor_eq rs_make_move_push'.split()),
                   'C03': (['Make', 'Unmake', 'MoveBits', 'GenMake', 'GenUnmake'], 'rs_unmake_eq rs_make_eq rs_unmake_generated rs_is_move_legal_generated rs_move_roundtrip rs_move_decode_eq'.split()),
                   'C05': (['Check'], 'rs_is_square_in_check_eq rs_is_in_check_by_bits_eq rs_is_current_in_check_eq rs_is_in_check_eq rs_is_valid_eq'.split()),
                   'C06': (['ZobristXor', 'GenXor'], 'rs_zobrist_xor_eq rs_zobrist_xor_generated'.split())}
